@@ -190,6 +190,13 @@ type Options struct {
 	ExtraArgs []string
 	Only      []int // run only these indices (replay/debug)
 	MaxCases  int   // override number of cases (debug)
+	// RaceLog: base path given to the workers' race detector (GORACE=log_path=<RaceLog>, set by check.sh together
+	// with VERIF_RACE_LOG). After the run every <RaceLog>.* file is parsed; a report whose two access stacks both
+	// contain code of the system under test refutes the property.
+	RaceLog string
+	// RacePhase: this run is the supplementary race-detector phase of a check whose main phase already wrote the
+	// evidence file: the result is merged into evidence.coverage.race_phase instead of replacing the file.
+	RacePhase bool
 }
 
 // Coordinate runs a check and writes the evidence file. Returns process exit code.
@@ -464,6 +471,53 @@ func report(c Check, o Options, results []CaseResult, wall time.Duration) int {
 			}
 		}
 	}
+	raceSeen := map[string]int{}
+	if o.RaceLog != "" {
+		var frame func(string) (string, bool)
+		if rf, ok := c.(RaceFilter); ok {
+			frame = rf.RaceFrame
+		}
+		reports, files := ParseRaceLogs(o.RaceLog, frame)
+		counters["race_log_files"] += len(files)
+		var keep string
+		for _, r := range reports {
+			counters["race_reports"]++
+			if !r.Relevant {
+				counters["race_reports_not_in_sut_packages"]++
+				raceSeen["(other) "+r.Sig]++
+				continue
+			}
+			counters["race_reports_in_sut_packages"]++
+			raceSeen[r.Sig]++
+			if raceSeen[r.Sig] > 1 {
+				continue
+			}
+			if keep == "" {
+				keep = filepath.Join(o.VerifDir, "logs", fmt.Sprintf("%s-race-%d.log", c.ID(), o.Seed))
+				var sb strings.Builder
+				for _, f := range files {
+					if b, err := os.ReadFile(f); err == nil {
+						sb.Write(b)
+					}
+				}
+				_ = os.WriteFile(keep, []byte(sb.String()), 0o644)
+			}
+			v := Violation{Property: c.ID(), Oracle: "data-race", Sig: "data-race:" + r.Sig,
+				Msg: fmt.Sprintf("the Go race detector reported a data race whose two accesses are both in the system under test: %s; full log %s\n%s", r.Sig, keep, r.Text)}
+			if f := matchFinding(findings, v); f != nil {
+				known[f.Property+" "+f.Sig+" — "+f.What]++
+				continue
+			}
+			unknownViolations = append(unknownViolations, v)
+			if firstReplay == "" {
+				firstReplay = keep
+			}
+			fmt.Printf("violation case=- oracle=%s sig=%s replay=%s\n   %s\n", v.Oracle, v.Sig, keep, firstLines(r.Text, 40))
+		}
+		for _, f := range files {
+			_ = os.Remove(f)
+		}
+	}
 	ks := make([]string, 0, len(known))
 	for k := range known {
 		ks = append(ks, k)
@@ -483,6 +537,24 @@ func report(c Check, o Options, results []CaseResult, wall time.Duration) int {
 			"inconclusive_notes": notes, "known_findings_seen": known,
 		},
 		"assumptions": c.Assumptions(), "wall_s": wall.Seconds(), "violations": len(unknownViolations),
+	}
+	if o.RaceLog != "" {
+		ev["coverage"].(map[string]any)["race_detector"] = map[string]any{"enabled": true, "distinct_reports": raceSeen}
+	}
+	if o.RacePhase {
+		// merge into the evidence written by the main phase
+		var main map[string]any
+		if mb, err := os.ReadFile(evPath); err == nil && json.Unmarshal(mb, &main) == nil && main["coverage"] != nil {
+			if cov, ok := main["coverage"].(map[string]any); ok {
+				cov["race_phase"] = map[string]any{"evaluations": len(results), "held": held, "violated_cases": violatedCases, "inconclusive": inconclusive,
+					"counters": counters, "distinct_reports": raceSeen, "violations": len(unknownViolations), "wall_s": wall.Seconds(),
+					"what": "the same generated cases re-run with a -race build of harness + system under test; GORACE halt_on_error=0, reports parsed from the log files"}
+				if nv, ok := main["violations"].(float64); ok {
+					main["violations"] = int(nv) + len(unknownViolations)
+				}
+				ev = main
+			}
+		}
 	}
 	b, _ := json.MarshalIndent(ev, "", " ")
 	_ = os.WriteFile(evPath, b, 0o644)
@@ -507,7 +579,7 @@ func report(c Check, o Options, results []CaseResult, wall time.Duration) int {
 		fmt.Printf("VIOLATION property=%s replay=%s\n", c.ID(), firstReplay)
 		return 1
 	}
-	if len(o.Only) == 0 {
+	if len(o.Only) == 0 && !o.RacePhase {
 		if len(results) == 0 || float64(inconclusive) > 0.2*float64(len(results)) {
 			fmt.Printf("no-evidence: %d of %d cases inconclusive\n", inconclusive, len(results))
 			fmt.Printf("VIOLATION property=%s replay=%s\n", c.ID(), evPath)
@@ -520,4 +592,12 @@ func report(c Check, o Options, results []CaseResult, wall time.Duration) int {
 		}
 	}
 	return 0
+}
+
+func firstLines(s string, n int) string {
+	l := strings.Split(s, "\n")
+	if len(l) > n {
+		l = l[:n]
+	}
+	return strings.Join(l, "\n   ")
 }
